@@ -5,6 +5,7 @@ import (
 	"go/constant"
 	"go/token"
 	"go/types"
+	"sort"
 	"strings"
 
 	"golang.org/x/tools/go/ssa"
@@ -513,15 +514,84 @@ func checkC12Fields(r *Report, p *Prog) {
 		fc := a.Ctx(fn)
 		if st := oneField(r, rule, fn, fc, modPath, "NameIDPolicy", "Format"); st != nil {
 			ok := false
+			why := "the requested name-ID format is not the configured one"
 			if al, isA := st.Val.(*ssa.Alloc); isA {
 				if iv := initStore(al); iv != nil {
 					if c, isC := iv.(*ssa.Call); isC && c.Call.StaticCallee() != nil && readsField(c.Call.StaticCallee(), "ServiceProvider", "AuthnNameIDFormat") && isStringType(c.Type()) {
-						ok = true
+						// the mapping is in a helper: judged on the helper's returned value
+						h := c.Call.StaticCallee()
+						ha := NewAnalysis(p)
+						hc := ha.Ctx(h)
+						hc.ensureConds()
+						var alts []fmtAlt
+						for _, ret := range hc.Returns() {
+							alts = append(alts, fmtAlts(hc, ret.Results[0], hc.Cond(ret.Block()), true, map[ssa.Value]bool{})...)
+						}
+						ok, why = nameIDFormatTable(ha, alts)
+						if !ok {
+							why = shortFn(h) + ": " + why
+						}
 					}
+				} else {
+					// the mapping is written out: the stores to the local, each under its condition
+					fc.ensureConds()
+					var alts []fmtAlt
+					for _, rf := range *al.Referrers() {
+						if s2, isS := rf.(*ssa.Store); isS && s2.Addr == ssa.Value(al) {
+							alts = append(alts, fmtAlts(fc, s2.Val, fc.Cond(s2.Block()), false, map[ssa.Value]bool{})...)
+						}
+					}
+					ok, why = nameIDFormatTable(a, alts)
 				}
 			}
-			r.Check(ok, rule, p.FnName(fn)+": NameIDPolicy.Format", p.InstrPos(st), "&nameIDFormat (sp.nameIDFormat())", "the requested name-ID format is not the configured one")
+			r.Check(ok, rule, p.FnName(fn)+": NameIDPolicy.Format", p.InstrPos(st), "&nameIDFormat (unset -> transient, unspecified -> none, otherwise the configured format)", why)
 		}
+	}
+	// the name ID of a logout request carries the same format
+	{
+		fn := p.MustFunc("saml", "ServiceProvider", "MakeLogoutRequest")
+		a := NewAnalysis(p)
+		fc := a.Ctx(fn)
+		fc.ensureConds()
+		var alts []fmtAlt
+		ok, why := false, "NameID.Format is never set"
+		var at ssa.Instruction
+		viaHelper := false
+		for _, b := range fn.Blocks {
+			for _, in := range b.Instrs {
+				s2, isS := in.(*ssa.Store)
+				if !isS {
+					continue
+				}
+				fa, isF := s2.Addr.(*ssa.FieldAddr)
+				if !isF || !typeIs(fa.X.Type(), modPath, "NameID") || fieldName(fa.X.Type(), fa.Field) != "Format" {
+					continue
+				}
+				at = in
+				if c, isC := s2.Val.(*ssa.Call); isC && c.Call.StaticCallee() != nil && readsField(c.Call.StaticCallee(), "ServiceProvider", "AuthnNameIDFormat") {
+					h := c.Call.StaticCallee()
+					ha := NewAnalysis(p)
+					hc := ha.Ctx(h)
+					hc.ensureConds()
+					var halts []fmtAlt
+					for _, ret := range hc.Returns() {
+						halts = append(halts, fmtAlts(hc, ret.Results[0], hc.Cond(ret.Block()), true, map[ssa.Value]bool{})...)
+					}
+					ok, why = nameIDFormatTable(ha, halts)
+					viaHelper = true
+					continue
+				}
+				alts = append(alts, fmtAlts(fc, s2.Val, fc.Cond(b), false, map[ssa.Value]bool{})...)
+			}
+		}
+		if !viaHelper && len(alts) > 0 {
+			ok, why = nameIDFormatTable(a, alts)
+		}
+		pos := p.Pos(fn.Pos())
+		if at != nil {
+			pos = p.InstrPos(at)
+		}
+		r.Check(ok, rule, p.FnName(fn)+": NameID.Format", pos, "unset -> transient, unspecified -> none, otherwise the configured format", why)
 	}
 	check(p.MustFunc("saml", "ServiceProvider", "MakeLogoutRequest"), []exp{
 		{"LogoutRequest", "Destination", "param:", "the idpURL parameter"},
@@ -615,7 +685,25 @@ type serialiserInfo struct {
 	canonical bool   // canonical WriteSettings dominate the write
 	settings  string // description
 	escaper   *ssa.Function
-	escaped   bool // every returned buffer passed through a filter that emits "&gt;"
+	escaped   bool      // every returned buffer passed through a filter that emits "&gt;"
+	escIn     ssa.Value // the escaper's input buffer (its parameter, or the written bytes when it is merged into fn)
+}
+
+// hasGTConst: the function's own code mentions the "&gt;" replacement text.
+func hasGTConst(fn *ssa.Function) bool {
+	for _, b := range fn.Blocks {
+		for _, in := range b.Instrs {
+			for _, op := range in.Operands(nil) {
+				if op == nil || *op == nil {
+					continue
+				}
+				if s, ok := constStr(*op); ok && s == "&gt;" {
+					return true
+				}
+			}
+		}
+	}
+	return false
 }
 
 func isWriteCall(c *ssa.Call) bool {
@@ -681,6 +769,18 @@ func serialisers(p *Prog) map[*ssa.Function]*serialiserInfo {
 		}
 		info := &serialiserInfo{fn: fn, docParam: dp, escaped: true}
 		okAll, n := true, 0
+		merged := hasGTConst(fn) // the '>' escaper is written out in the serialiser itself
+		var mfc *FuncCtx
+		if merged {
+			mfc = NewAnalysis(p).Ctx(fn)
+			mfc.ensureConds()
+			info.escaper = fn
+			for _, rf := range *w.Referrers() {
+				if ex, ok := rf.(*ssa.Extract); ok && ex.Index == 0 {
+					info.escIn = ex
+				}
+			}
+		}
 		for _, b := range fn.Blocks {
 			rt, ok := b.Instrs[len(b.Instrs)-1].(*ssa.Return)
 			if !ok || b == fn.Recover {
@@ -691,6 +791,38 @@ func serialisers(p *Prog) map[*ssa.Function]*serialiserInfo {
 				continue
 			}
 			n++
+			if merged {
+				// the written bytes themselves only on the "nothing to escape" path; otherwise the escaped copy
+				if ex, ok := v.(*ssa.Extract); ok && ex.Tuple == ssa.Value(w) {
+					fast := false
+					B := mfc.A.B
+					for _, nm := range B.Support(mfc.Cond(b)) {
+						ai := mfc.A.Atoms[nm]
+						if ai == nil || ai.Kind != "call" || len(ai.Vals) != 2 || len(ai.Args) != 3 || !mfc.Implied(b, B.Not(B.Var(nm))) {
+							continue
+						}
+						if ai.Args[0] == "bytes.Contains" && ai.Args[1] == mfc.AP(ex) {
+							if s, ok := constBytes(ai.Vals[1]); ok && (s == "]]>" || s == ">") {
+								fast = true
+							}
+						}
+					}
+					if !fast {
+						info.escaped = false
+					}
+				} else {
+					derived := false
+					for _, lf := range rootLeaves(v, map[ssa.Value]bool{}) {
+						if _, ok := lf.(*ssa.MakeSlice); ok {
+							derived = true
+						}
+					}
+					if !derived {
+						okAll = false
+					}
+				}
+				continue
+			}
 			for _, lf := range rootLeaves(v, map[ssa.Value]bool{}) {
 				if isNilConst(lf) {
 					continue
@@ -794,10 +926,14 @@ func checkEscape(r *Report, p *Prog, rule string, sel func(*ssa.Function) bool) 
 										continue
 									}
 									for _, lf := range rootLeaves(ec.Call.Args[0], map[ssa.Value]bool{}) {
-										if sl, ok := lf.(*ssa.Slice); ok && sl.X == ssa.Value(info.escaper.Params[0]) {
+										escIn := info.escIn
+										if escIn == nil {
+											escIn = info.escaper.Params[0]
+										}
+										if sl, ok := lf.(*ssa.Slice); ok && sl.X == escIn {
 											alias = p.InstrPos(sl)
 										}
-										if lf == ssa.Value(info.escaper.Params[0]) {
+										if lf == escIn {
 											alias = p.InstrPos(ein)
 										}
 									}
@@ -1004,4 +1140,144 @@ func mentions(B *BDD, f *bddNode, ap string) bool {
 		}
 	}
 	return false
+}
+
+// constBytes: v is []byte("constant").
+func constBytes(v ssa.Value) (string, bool) {
+	if cv, ok := v.(*ssa.Convert); ok {
+		return constStr(cv.X)
+	}
+	return constStr(v)
+}
+
+// fmtAlt: one alternative of a string value with the condition it is chosen under.
+type fmtAlt struct {
+	v      ssa.Value
+	cond   *bddNode
+	merged bool // came through a phi (or a helper's return): the empty string is then a choice, not the initial value
+	fc     *FuncCtx
+}
+
+func fmtAlts(fc *FuncCtx, v ssa.Value, cond *bddNode, merged bool, seen map[ssa.Value]bool) []fmtAlt {
+	B := fc.A.B
+	if seen[v] {
+		return nil
+	}
+	seen[v] = true
+	if ph, ok := v.(*ssa.Phi); ok {
+		var out []fmtAlt
+		for i, e := range ph.Edges {
+			pb := ph.Block().Preds[i]
+			out = append(out, fmtAlts(fc, e, B.And(cond, B.And(fc.Cond(pb), fc.edgeCond(pb, ph.Block()))), true, seen)...)
+		}
+		return out
+	}
+	if cond == B.False {
+		return nil
+	}
+	// a value looked up in a constant package-level table: one alternative per entry, under "the key is that entry's"
+	var look *ssa.Lookup
+	switch x := v.(type) {
+	case *ssa.Lookup:
+		if !x.CommaOk {
+			look = x
+		}
+	case *ssa.Extract:
+		if l, ok := x.Tuple.(*ssa.Lookup); ok && x.Index == 0 {
+			look = l
+		}
+	}
+	if look != nil {
+		if ents, ok := fc.tableEntries(look); ok {
+			var out []fmtAlt
+			any := B.False
+			for _, e := range ents {
+				hit := fc.eqFormula(look, look.Index, e.k)
+				any = B.Or(any, hit)
+				if c := B.And(cond, hit); c != B.False {
+					out = append(out, fmtAlt{e.v, c, true, fc})
+				}
+			}
+			if c := B.And(cond, B.Not(any)); c != B.False {
+				if bt, isBasic := v.Type().Underlying().(*types.Basic); isBasic && bt.Info()&types.IsString != 0 {
+					out = append(out, fmtAlt{ssa.NewConst(constant.MakeString(""), v.Type()), c, true, fc})
+				} else {
+					out = append(out, fmtAlt{v, c, true, fc})
+				}
+			}
+			return out
+		}
+	}
+	return []fmtAlt{{v, cond, merged, fc}}
+}
+
+// nameIDFormatTable: the requested name-ID format as a function of the configured one: unset -> transient; the
+// "unspecified" format -> none; anything else -> itself.
+func nameIDFormatTable(a *Analysis, alts []fmtAlt) (bool, string) {
+	B := a.B
+	var emptyA, unspecA string
+	var names []string
+	for nm := range a.Atoms {
+		names = append(names, nm)
+	}
+	sort.Strings(names)
+	for _, nm := range names {
+		ai := a.Atoms[nm]
+		if len(ai.Args) == 0 || !strings.HasSuffix(ai.Args[0], "AuthnNameIDFormat") && !(len(ai.Args) > 1 && strings.HasSuffix(ai.Args[1], "AuthnNameIDFormat")) {
+			continue
+		}
+		switch {
+		case ai.Kind == "empty":
+			emptyA = nm
+		case ai.Kind == "eq" && strings.Contains(nm, "nameid-format:unspecified"):
+			unspecA = nm
+		}
+	}
+	if emptyA == "" || unspecA == "" {
+		return false, "the configured format is not compared with the empty string and the 'unspecified' format"
+	}
+	E, U := B.Var(emptyA), B.Var(unspecA)
+	nT, nF := 0, 0
+	for _, al := range alts {
+		v := al.v
+		for {
+			if cv, ok := v.(*ssa.Convert); ok {
+				v = cv.X
+				continue
+			}
+			if ct, ok := v.(*ssa.ChangeType); ok {
+				v = ct.X
+				continue
+			}
+			break
+		}
+		if s, ok := constStr(v); ok {
+			switch {
+			case s == "":
+				if al.merged && !B.Implies(al.cond, U) {
+					return false, "no format is requested under " + a.canon(al.cond) + " (expected only for the 'unspecified' format)"
+				}
+			case strings.HasSuffix(s, "nameid-format:transient"):
+				nT++
+				if !B.Implies(al.cond, E) {
+					return false, "the transient format is requested under " + a.canon(al.cond) + " (expected only when no format is configured)"
+				}
+			default:
+				return false, fmt.Sprintf("the fixed format %q is requested", s)
+			}
+			continue
+		}
+		if ap := al.fc.AP(v); strings.HasSuffix(ap, "AuthnNameIDFormat") {
+			nF++
+			if !B.Implies(al.cond, B.And(B.Not(E), B.Not(U))) {
+				return false, "the configured format is passed on under " + a.canon(al.cond) + " (expected: configured and not 'unspecified')"
+			}
+			continue
+		}
+		return false, "the requested format is " + al.fc.AP(v)
+	}
+	if nT == 0 || nF == 0 {
+		return false, fmt.Sprintf("alternatives: %d transient, %d configured (expected both)", nT, nF)
+	}
+	return true, ""
 }
